@@ -130,6 +130,18 @@ Example c03_ex_unredirected_inherited_sort :
   o = [CSelect [4%nat]; CFrom 1%nat 0%nat; COther; CSort [(0%nat, true)]; CTake true []].
 Proof. vm_compute. reflexivity. Qed.
 
+(* alias_last_sorting (the re-targeting of the main query's final ORDER BY through the redirects and aliases of the context)
+   is modelled at column-id level too and compared with the code; whatever it does to the ids, the directions are those of the
+   order in effect, and with no redirect in the context it changes nothing *)
+Theorem c03_alias_last_sorting_keeps_directions : forall fuel decls rds final_select from_riid k,
+  map snd (Sorts.alias_last_sorting fuel decls rds final_select from_riid k) = map snd k.
+Proof. exact alias_last_sorting_directions. Qed.
+Print Assumptions c03_alias_last_sorting_keeps_directions.
+Theorem c03_alias_last_sorting_no_redirects : forall fuel decls final_select from_riid k,
+  Sorts.alias_last_sorting fuel decls [] final_select from_riid k = k.
+Proof. exact alias_last_sorting_no_redirects. Qed.
+Print Assumptions c03_alias_last_sorting_no_redirects.
+
 (* ---- (c) resolver side: model of the Flattener (semantic/resolver/flatten.rs as of fixes 8f24a64, 592b6f8, 8d54bf7,
    f809321), compared with the implementation's RQ (Take.sort, Compute.window.sort, sizes of the partitions, surviving
    Sort transforms) on every generated program.  Whatever sorts are dropped in front of a group, every take and every
